@@ -25,6 +25,17 @@ Check C20_conflict_reported : forall c fs0, overwrite c = false ->
   (exists p, In p (outputs c) /\ existed fs0 p) -> snd (run c fs0) <> 0.
 Print Assumptions C20_conflict_reported.
 
+(* nothing appears anywhere else: what is new after the run sits at an output path or is a directory above one,
+   so nothing is created through a symbolic link (the write-through of the old Path::exists guard is excluded) *)
+Theorem C20_no_stray : forall c fs0, overwrite c = false ->
+  forall q, ~ existed fs0 q -> existed (fst (run c fs0)) q ->
+  exists p, In p (map snd (outs c)) /\ is_prefix q p = true.
+Proof. exact no_stray. Qed.
+Check C20_no_stray : forall c fs0, overwrite c = false ->
+  forall q, ~ existed fs0 q -> existed (fst (run c fs0)) q ->
+  exists p, In p (map snd (outs c)) /\ is_prefix q p = true.
+Print Assumptions C20_no_stray.
+
 (* the premises are met by a real conflict (a canary at part 2 of a three-part create --split): exit 1,
    part 1 written, canary intact *)
 Theorem C20_conflict_example :
